@@ -56,7 +56,11 @@ CHILD = textwrap.dedent('''
     pkg = %(pkg)r
     count = [0]
     down_at = fail_at[1] if isinstance(fail_at, (list, tuple)) and fail_at[0] == 'down' else None
-    retry_at = fail_at[1] if isinstance(fail_at, (list, tuple)) and fail_at[0] == 'retry' else None
+    retry_at = fail_at[1] if isinstance(fail_at, (list, tuple)) and fail_at[0] in ('retry', 'retry2') else None
+    # retry2: the failed attempt saw other data (corrected before the retry) and its exception object is still referenced
+    # while the retry runs and commits; it is released afterwards
+    stale = isinstance(fail_at, (list, tuple)) and fail_at[0] == 'retry2'
+    kept = []
     attempts = [0]
     src_at = fail_at[1] if isinstance(fail_at, (list, tuple)) and fail_at[0] == 'src' else None
     def up(rows):
@@ -66,7 +70,7 @@ CHILD = textwrap.dedent('''
             if retry_at is not None and attempts[0] == 0 and count[0] == retry_at:
                 raise RuntimeError('injected, first attempt only')
             count[0] += 1
-            yield r
+            yield dict(r, s='stale value %%d of the failed attempt' %% count[0]) if stale and attempts[0] == 0 else r
     dcount = [0]
     def down(rows):
         # a step placed after the checkpoint, failing while rows are still flowing through it
@@ -101,12 +105,17 @@ CHILD = textwrap.dedent('''
                 try:
                     flow.results()
                     first = 'returned'
-                except Exception:
+                except Exception as e1:
                     first = 'raised'
+                    if stale:
+                        kept.append(e1)
                 attempts[0] = 1
                 count[0] = 0
                 res = flow.results()[0]
                 extra_out = {'first': first}
+                del kept[:]
+                import gc
+                gc.collect()
             else:
                 res = flow.results()[0]
                 extra_out = {}
@@ -153,7 +162,7 @@ def expected_ops(pkg):
     for rows in pkg:
         for _ in rows:
             ops += ['write', 'flush']
-        ops.append('sep')
+        ops += ['sep', 'flush']
     return ops + ['close', 'rename']
 
 
@@ -194,13 +203,13 @@ def run_impl(case):
         rc2, again, err2 = child(pkg, d)
         r = {'at': fa, 'raised': bool(o and 'error' in o), 'final_exists': exists, 'rerun': (again or {}).get('res'),
              'rerun_error': (again or {}).get('error')}
-        if isinstance(fa, list) and fa[0] == 'retry':
+        if isinstance(fa, list) and fa[0] in ('retry', 'retry2'):
             r['retry'] = {'first': (o or {}).get('first'), 'second': (o or {}).get('res'), 'error': (o or {}).get('error')}
         return r
     with ThreadPoolExecutor(max_workers=12) as ex:
         if case['kind'] == 'crash':
             # steps before the checkpoint at every row and at exhaustion; a step after it at every row
-            points = list(range(nrows)) + ['end'] + [['down', k] for k in range(nrows)] + [['retry', k] for k in range(nrows)]
+            points = list(range(nrows)) + ['end'] + [['down', k] for k in range(nrows)] + [['retry', k] for k in range(nrows)] + [['retry2', k] for k in range(1, nrows)]
         else:
             points = case['points']
         out['fails'] = list(ex.map(one_fail, points))
@@ -249,7 +258,7 @@ def coq_term(case, out):
     # model operation kinds: WriteFlush = write+flush
     shape = clist([clist(['tt'] * len(r)) for r in case['pkg']])
     obs = clist([cZ(kinds[o]) for o in out['ops']])
-    model = ('flat_map (fun o => match o with Mkdir => [0] | OpenTrunc _ => [1] | WriteFlush _ _ => [2; 3] | WriteBuffered _ _ => [4] '
+    model = ('flat_map (fun o => match o with Mkdir => [0] | OpenTrunc _ => [1] | WriteFlush _ [] => [4; 3] | WriteFlush _ _ => [2; 3] | WriteBuffered _ _ => [4] '
              '| Close _ => [5] | Rename _ _ => [6] end) (stream_ops unit unit (fun _ => [1]) (fun _ => [1]) [1] [2] (tt, %s))') % shape
     t = 'list_eqb Z.eqb (%s) %s' % (model, obs)
     # crash states: the model says the final name exists after k operations iff k covers the rename
